@@ -11,23 +11,23 @@ open Irismod.Sdk Irismod.GoSem
 
 theorem tokenfee_all_translated : Irismod.Gen.PureTokenFee.untranslated = [] := rfl
 theorem tokenfee_translated_pinned : Irismod.Gen.PureTokenFee.translated =
-    ["MintToken_precision_1(token_Scale)",
-     "MintToken_mintableAmt_1(token_MaxSupply,precision,supply)",
-     "MintToken_guard_1(read_owner_String,token_Owner)",
+    ["MintToken_guard_1(read_owner_String,token_Owner)",
      "MintToken_guard_2(token_Mintable)",
+     "MintToken_precision_1(token_Scale)",
+     "MintToken_mintableAmt_1(token_MaxSupply,precision,supply)",
      "MintToken_guard_3(coinMinted,mintableAmt)",
      "MintToken_cond_4(read_recipient_Empty)",
-     "EditToken_issuedAmt_1(read_k_getTokenSupply_ctx_token_MinUnit)",
-     "EditToken_precision_1(token_Scale)",
-     "EditToken_token_MaxSupply_1(maxSupply)",
-     "EditToken_token_Name_1(name)",
-     "EditToken_token_Mintable_1(read_mintable_ToBool)",
      "EditToken_guard_1(read_owner_String,token_Owner)",
      "EditToken_cond_2(maxSupply)",
+     "EditToken_issuedAmt_1(read_k_getTokenSupply_ctx_token_MinUnit)",
+     "EditToken_precision_1(token_Scale)",
      "EditToken_guard_3(maxSupply,precision,issuedAmt)",
+     "EditToken_token_MaxSupply_1(maxSupply)",
      "EditToken_cond_4(name)",
+     "EditToken_token_Name_1(name)",
      "EditToken_cond_5(exist)",
      "EditToken_cond_6(mintable)",
+     "EditToken_token_Mintable_1(read_mintable_ToBool)",
      "GetTokenMintFee_mintFee_1(fee,params_MintTokenFeeRatio)",
      "feeHandler_communityTaxCoin_1(fee,tokenTaxRate)",
      "calcFeeByBase_actualFee_1(baseFee,feeFactor)"] := rfl
